@@ -350,8 +350,10 @@ class Lexer:
 
             chars = []
             while not self.eos() and self.read() != '"':
-                # An escaped " should not close the string
-                if self.read(2) == '\\"':
+                # A backslash escapes the character after it, so that an
+                # escaped " does not close the string and an escaped
+                # backslash does not escape the " after it.
+                if self.read() == "\\" and len(self.read(2)) == 2:
                     chars.append(self.read(2))
                     self.pos += 2
                 else:
